@@ -1,0 +1,14 @@
+//go:build verif
+
+package internal
+
+// Contracts for the tracing helpers (property C03). Comment-only.
+
+/*@
+# the span context is derived from the context passed in: cancellation of the
+# caller's context reaches everything started under the span
+func StartSpan(ctx context.Context, name string, opts ...trace.SpanStartOption) (context.Context, trace.Span)
+  props C03
+  modifies nothing
+  ensures ctxRoot(result0) == ctxRoot(ctx)
+@*/
